@@ -271,6 +271,8 @@ fn c07_case(seed: u64, case: u64) -> (Verdict, String, String, bool, String, J, 
     let evs = rec.evs.clone();
     let sd = steps_done.clone();
     let script = body.clone();
+    let cancel_asked = Arc::new(AtomicU64::new(0));
+    let ca = cancel_asked.clone();
     let f = move |s: &SchedulableSuspender, ()| -> Option<usize> {
         let mut cur_sys: Option<SyscallName> = None;
         for st in &script {
@@ -311,7 +313,10 @@ fn c07_case(seed: u64, case: u64) -> (Verdict, String, String, bool, String, J, 
                     co.running().expect("leave syscall");
                     cur_sys = None;
                 }
-                Step::Cancel => s.cancel(),
+                Step::Cancel => {
+                    _ = ca.fetch_add(1, Ordering::SeqCst);
+                    s.cancel();
+                }
                 Step::Panic => panic!("scripted panic"),
                 Step::Return(v) => {
                     _ = sd.fetch_add(1, Ordering::SeqCst);
@@ -456,6 +461,13 @@ fn c07_case(seed: u64, case: u64) -> (Verdict, String, String, bool, String, J, 
         }
         let _ = stuck_in_syscall_after_panic;
         drop(co);
+    }
+    // the edge taken must be the one the body asked for: a body that never called cancel() (a request left behind on the
+    // thread by an earlier coroutine is not its own) must not be reported Cancelled
+    if viol.is_none() && cancel_asked.load(Ordering::SeqCst) == 0 {
+        if let Some(e) = evs.lock().unwrap().iter().find(|e| e.kind == "cancel" || matches!(e.new, Some(CoroutineState::Cancelled))) {
+            viol = Some(("cancelled-although-the-body-never-asked".into(), format!("listener heard '{}' {} -> {:?} but the body made no cancel request", e.kind, st_str(&e.old), e.new.as_ref().map(st_str))));
+        }
     }
     let fp = fp_of(&auto.fingerprint.join(","));
     let obs = jobj! {"transitions" => auto.fingerprint.join(" "), "resumes" => resumes, "early_resume_attempts" => early_tried,
